@@ -476,6 +476,7 @@ def scenario(args):
         last = A["new"][-1]
         head_lines = {}
         line_class = {}        # text -> "K2" | "K5" | None for every line added in the range
+        tainted = set()        # texts of lines added inside a mixed hunk
         for pos_, (sa, sb) in enumerate(zip(A["new"], B["new"])):
             na, nb = simA.note(sa), simB.note(sb)
             ba = _note_blob(simA, sa)
@@ -501,8 +502,12 @@ def scenario(args):
                 for os_, oc, ns, nc in _hunks(simA, sa, p):
                     au = set(w.author_of.get(cur[j - 1], "?") for j in range(ns, ns + nc) if 1 <= j <= len(cur))
                     au |= set(w.author_of.get(prev[j - 1], "?") for j in range(os_, os_ + oc) if 1 <= j <= len(prev))
-                    if len(au) >= 2:
+                    # ... or were themselves part of a mixed hunk of an earlier commit of the range (the replay carries
+                    # its colouring forward)
+                    carried = any(prev[j - 1] in tainted for j in range(os_, os_ + oc) if 1 <= j <= len(prev))
+                    if len(au) >= 2 or carried:
                         mixed |= set(range(ns, ns + nc))
+                tainted |= set(cur[j - 1] for j in mixed if 1 <= j <= len(cur))
                 clean[p] = surviving[p] - mixed
                 for i in ok_ls:
                     line_class[cur[i - 1]] = "K2" if i not in surviving[p] else ("K5" if i in mixed else None)
@@ -1014,8 +1019,9 @@ def run(ctx):
                      "C15-K2": "C15-K2 the full replay starts from the end of the range: AI lines a commit adds that do not survive "
                                "unchanged to the last commit of the range are missing or credited to another session in its note",
                      "C15-K5": "C15-K5 (root cause C02-K3) the full replay colours a whole re-inserted hunk by one author: in a hunk that mixes "
-                               "authors (a person and a session, two sessions, or a line rewritten in place by another author) human lines "
-                               "become AI and lines change session; the shortcut keeps the original per-line attribution",
+                               "authors (a person and a session, two sessions, a line rewritten in place by another author, or a rewrite of "
+                               "a line that an earlier commit of the range added in such a hunk) human lines become AI and lines change "
+                               "session; the shortcut keeps the original per-line attribution",
                      "C15-K3": "C15-K3 prompt counters (total_additions, total_deletions, accepted_lines, overriden_lines) written by the "
                                "full replay are not those of the original commit's record"}[k_["class"]]
             known(label)
